@@ -395,6 +395,26 @@ def _side_condition() -> dict:
                 problems.append(f"{name}: tree changed by the capped/reordered enumeration (cap={cap})")
             if mutator.mutation_count(tree, module) != n:
                 problems.append(f"{name}: mutation_count {mutator.mutation_count(tree, module)} != {n} (cap={cap})")
+        # through the real MutationController: the reported count is the size of the full enumeration, whenever it is asked
+        from pynguin.assertion.mutation_analysis.controller import MutationController
+
+        for kwargs in ({}, {"maximum_mutants": max(n // 2, 1), "sampling_seed": 3, "reorder": True}):
+            ctrl = MutationController(mu.FirstOrderMutator(operators, **kwargs), tree, module)
+            try:
+                before = ctrl.mutant_count()
+                created = sum(1 for _ in ctrl.create_mutants())
+                after = ctrl.mutant_count()
+            except Exception as e:  # noqa: BLE001
+                problems.append(f"{name}: MutationController raised {type(e).__name__}: {e} ({kwargs or 'default'})")
+                continue
+            cases += created
+            if before != n or after != n:
+                problems.append(f"{name}: MutationController.mutant_count() is {before} before and {after} after create_mutants(), the "
+                                f"full enumeration has {n} mutants ({kwargs or 'default'})")
+            if created != (min(kwargs["maximum_mutants"], n) if kwargs else n):
+                problems.append(f"{name}: MutationController.create_mutants() yielded {created} mutants ({kwargs or 'default'}, full: {n})")
+            if ast.dump(tree) != original:
+                problems.append(f"{name}: tree changed by MutationController ({kwargs or 'default'})")
         # an enumeration that is abandoned after k mutants (time limit reached, consumer gone) restores the tree too
         for kwargs in ({}, {"maximum_mutants": max(n // 2, 1), "sampling_seed": 3, "reorder": True}):
             for k in sorted({1, 2, max(n // 3, 1), max(n // 2, 1), max(n - 1, 1)}):
